@@ -513,6 +513,16 @@ static Plan gen_c12(uint64_t seed, const std::string &tier) {
         p.ops.push_back(op_setconfig(s.render(r, true)));
         ExecOp e; e.path = "/bin/x"; e.argv = {"x"}; p.ops.push_back(op_exec(e));
     }
+    // the whole environment, with the data source limit placed at its length and around it: what fits is reported whole, to the last byte
+    if (!w.environ_null && r.chance(1, 5)) {
+        size_t total = 0; for (auto &e : w.env) total += e.size() + 1;
+        if (total < 300) { w.env.push_back("PAD=" + std::string(300 - total, 'p')); total = 0; for (auto &e : w.env) total += e.size() + 1; }
+        long lim = (long)total - 1 + r.range(-1, 5); if (lim < 255) lim = 255; if (lim > 1048575) lim = 1048575;
+        CfgSpec s; s.has_format = true; s.format = "<env_all=%{env_all}>"; s.has_output = true; s.output = "file:/log/c12"; s.has_logmax = true; s.logmax = "1048575"; s.has_dsmax = true; s.dsmax = std::to_string(lim);
+        p.ops.push_back(op_setconfig(s.render(r, true)));
+        ExecOp e; e.path = "/bin/x"; e.argv = {"x"}; p.ops.push_back(op_exec(e));
+        p.extra.set("env_all_at_limit", lim - ((long)total - 1));
+    }
     // "at the time of the call": the state of a process changes while it lives - it drops privileges, changes directory, loses its parent,
     // detaches from the terminal - and a later exec of the same process has to report the new state
     if (r.chance(1, 2)) {
@@ -545,6 +555,7 @@ static Verdict oracle_c12(const Plan &p, const RunResult &r) {
         if (j.v.cls != "record-content") return j.v;
         // name the data source that differs
         std::string got = file_record(r, cv.opi, "/log/c12");
+        if (j.exp.cfg.message_format.compare(0, 9, "<env_all=") == 0) { j.v.cls = "datasource-wrong:env_all"; return j.v; }   // values of the environment may contain the delimiters
         for (auto &t : j.exp.records) {
             size_t k = 0; while (k < got.size() && k < t.size() && got[k] == t[k]) k++;
             size_t b = t.rfind('<', k); size_t e = b == std::string::npos ? std::string::npos : t.find('=', b);
@@ -559,6 +570,7 @@ static void describe_c12(const Plan &p, const RunResult &r, J &line) {
     std::string sig = std::string(w.uid == w.euid ? "u=" : "u!") + (w.gid == w.egid ? "g=" : "g!") + (w.uid == w.gid ? "ug=" : "ug!") + "t" + std::to_string(w.tty_state) + (w.pw(w.uid) ? "N" : "n") + (w.pw(w.euid) ? "N" : "n") + (w.gr(w.gid) ? "N" : "n") + (w.gr(w.egid) ? "N" : "n") +
                       (w.login_errno ? "l!" : "l=") + (w.at_secure ? "S" : "s") + (w.environ_null ? "E0" : w.env.empty() ? "Ee" : "En") + (w.cwd_errno ? "c!" : "c=") + "d" + std::to_string(w.procs.size());
     line.set("sig", sig); line.set("nontrivial", true);
+    if (p.extra.has("env_all_at_limit")) line.set("p_env_all_at_limit", true);
     if (w.uid != w.euid && w.gid != w.egid && w.uid != w.gid && w.euid != w.egid) line.set("p_all_ids_distinct", true);
     if (!w.pw(w.uid) || !w.gr(w.gid)) line.set("p_id_without_name", true);
     if (w.tty_state == 0) line.set("p_no_tty", true);
